@@ -284,6 +284,15 @@ def run(repo: Repo, chk: Check, thorough: bool = False) -> None:
             n_decided += 1
             k += 1
             chk.ob('R01.4', f'{f.qn} :: while `{norm(loop.test)[:50]}` makes progress', verdict != 'stuck', why, repo.loc(f.mod, loop))
+    from ..progress import pushback_loops
+    n_pb = 0
+    for f in sorted(repo.funcs.values(), key=lambda f: f.qn):
+        if '.test' in f.mod.name or f.mod.name in tables.OPAQUE_MODULES or f.mod.name.startswith('pydoctor.sphinx_ext'):
+            continue
+        for st_, okp, whyp in pushback_loops(repo, f):
+            n_pb += 1
+            chk.ob('R01.4', f'{f.qn} :: push-back `{norm(st_)[:40]}` leaves the loop', okp, whyp, repo.loc(f.mod, st_))
+    chk.stats['pushback_sites'] = n_pb
     chk.stats['while_loops'] = n_loops
     chk.stats['while_loops_decided'] = n_decided
     if n_loops < 30:
